@@ -12,8 +12,9 @@ VERIF = os.path.dirname(os.path.dirname(os.path.abspath(__file__)))
 CTX = None   # the current shard context (set by vt.shard)
 
 
-class VTTimeout(Exception):
-    pass
+class VTTimeout(BaseException):
+    """the harness's own watchdog (BaseException so that neither a driver's nor an oracle's `except Exception`
+    mistakes it for the library raising)"""
 
 
 class Skip(Exception):
@@ -118,6 +119,8 @@ class case_watchdog(object):
 
     def __enter__(self):
         if self.seconds:
+            self.outer = signal.getitimer(signal.ITIMER_REAL)[0]      # an enclosing watchdog's remaining time
+            self.t0 = time.time()
             self.old = signal.signal(signal.SIGALRM, self._fire)
             signal.setitimer(signal.ITIMER_REAL, self.seconds)
 
@@ -125,6 +128,8 @@ class case_watchdog(object):
         if self.seconds:
             signal.setitimer(signal.ITIMER_REAL, 0)
             signal.signal(signal.SIGALRM, self.old)
+            if self.outer:
+                signal.setitimer(signal.ITIMER_REAL, max(0.01, self.outer - (time.time() - self.t0)))
         return False
 
 
